@@ -40,7 +40,9 @@ def gen_case(rnd):
             methods.append(['m', {'contracts': cs, 'inherit': bool(bases) and rnd.random() < .6}])
         classes.append({'name': nm, 'bases': bases, 'methods': methods, 'inherit_class': False})
     queries = [[c['name'], 'm'] for c in classes if any(True for _ in [1])]
-    return {'classes': classes, 'queries': queries}
+    # every contract is a precondition or a raises contract (get_contracts lists preconditions first)
+    kinds = {str(i): ('raises' if rnd.random() < .3 else 'pre') for i in range(1, cid + 1)}
+    return {'classes': classes, 'queries': queries, 'kinds': kinds}
 
 
 def q(s): return '"' + s + '"'
@@ -121,6 +123,13 @@ def run(ctx, fr, model_available=True):
             has_any = [resolves(case, q_[0])[0] for q_ in case['queries']]
             for (cn, mn), rr, h in zip(case['queries'], r, has_any):
                 ml = mo[pos]; pos += 1
+                # the model lists the registry in application order; get_contracts groups by kind: preconditions, then raises
+                head, _, tail = ml.partition('=')
+                ids_s, _, mro_s = tail.partition(' mro=')
+                ids = [x for x in ids_s.split(',') if x]
+                kd = case.get('kinds', {})
+                ids = [x for x in ids if kd.get(x, 'pre') == 'pre'] + [x for x in ids if kd.get(x) == 'raises']
+                ml = head + '=' + ','.join(ids) + ' mro=' + mro_s
                 il = rr['line']
                 # the MRO printed by CPython ends with object, as the model's
                 if h and ml != il:
